@@ -29,8 +29,22 @@ package tokens
 //@   ensures valid: result <==> (op.ServerPrivateKey != nil && op.ServerName != "" && op.UserID != "")
 //@   assigns nothing
 
+// a presented token is decoded exactly as it was presented (unpadded URL-safe base64 of the macaroon's binary form):
+// nothing is trimmed, padded or otherwise normalised first, so an altered token is never mapped back onto a genuine one
+//@ func deSerializeMacaroon
+//@   property C20
+//@   calls DecodeString the-token-exactly-as-presented: s == urlSafeEncode
+//@   calls UnmarshalBinary the-decoded-bytes: data == ret(DecodeString, 0)
+//@   ensures decoded-or-refused: result[1] == nil ==> (called(DecodeString) && ret(DecodeString, 1) == nil && called(UnmarshalBinary) && ret(UnmarshalBinary) == nil)
+
+//@ func serializeMacaroon
+//@   property C20
+//@   calls EncodeToString the-binary-form: src == ret(MarshalBinary, 0)
+//@   ensures encoded-or-refused: result[1] == nil ==> (called(EncodeToString) && result[0] == ret(EncodeToString))
+
 //@ func ValidateToken
 //@   property C20
+//@   calls deSerializeMacaroon the-presented-token: urlSafeEncode == token
 //@   ensures parsed: err == nil ==> called(deSerializeMacaroon) && ret(deSerializeMacaroon, 1) == nil
 //@   ensures signed: err == nil ==> called(VerifySignature) && ret(VerifySignature, 1) == nil
 //@   ensures caveats-checked: err == nil ==> called(verifyCaveats) && ret(verifyCaveats) == nil
@@ -48,8 +62,10 @@ package tokens
 // (generated from `gvc sweep`; `inline`: callers keep seeing the body).
 
 //@ func GetUserFromToken
-//@   property C18:safety
+//@   property C20, C18:safety
 //@   inline
+//@   calls deSerializeMacaroon the-presented-token: urlSafeEncode == token
+//@   ensures refused-if-undecodable: (called(deSerializeMacaroon) && ret(deSerializeMacaroon, 1) != nil) ==> err != nil
 
 //@ func generateBaseMacaroon
 //@   property C18:safety
